@@ -331,7 +331,9 @@ theorem ainv_move (s s' : St) (t : Nat) (old new : Option (UInt64 × Nat)) (th' 
 /-! ### the operations -/
 
 /-- what the user's `create_unit` may return: NULL, or a handle that is not the handle of a
-live unit (of any user pool: the table is global) -/
+live unit of another work unit (the table is global).  When a work unit moves from one user
+pool to another the new pool may also return the handle the work unit already has (`Legal`):
+abt.h allows e.g. the `ABT_thread` handle itself to serve as unit in every pool. -/
 def fresh (s : St) (nu : UInt64) : Prop := nu = s.map.nul ∨ absMap s.map nu = none
 
 /-- a unit handle the caller may pass to the runtime -/
@@ -343,8 +345,8 @@ def okRef (s : St) : URef → Prop
 /-- client contract of each operation -/
 def Legal (s : St) : Op → Prop
   | .init t _ nu _ => (s.thr t).unit = .null ∧ fresh s nu
-  | .setPool t _ nu _ => (s.thr t).unit ≠ .null ∧ fresh s nu
-  | .unitSetPool u _ nu _ => okRef s u ∧ fresh s nu
+  | .setPool t _ nu _ => (s.thr t).unit ≠ .null ∧ (fresh s nu ∨ (s.thr t).unit = .user nu)
+  | .unitSetPool u _ nu _ => okRef s u ∧ (fresh s nu ∨ u = .user nu)
   | .unset t => (s.thr t).unit ≠ .null
   | .use _ => True
   | .lookup u => okRef s u
@@ -360,10 +362,10 @@ theorem ainv_log_other (s : St) (t p : Nat) (hi : AInv s) :
     exact hi.bridge u p' hu
   · simp only [LogOK]; exact ⟨fun h => absurd rfl h, hi.log_ok⟩
 
-theorem ainv_log_mem (s : St) (t p : Nat) (nu : UInt64) (hi : AInv s) (hnu : nu ≠ s.map.nul)
-    (hf : absMap s.map nu = none) :
+theorem ainv_log_mem' (s : St) (t p : Nat) (nu : UInt64) (hi : AInv s) (hnu : nu ≠ s.map.nul)
+    (hf : live s nu p = false) :
     AInv { s with log := .free p nu :: .create p t nu :: s.log } := by
-  have hl : liveL s.map.nul s.log nu p = false := by rw [hi.bridge nu p hnu]; simp [live, hf]
+  have hl : liveL s.map.nul s.log nu p = false := by rw [hi.bridge nu p hnu]; exact hf
   refine ⟨hi.wf, hi.bi, hi.user_ok, hi.map_ok, ?_, ?_⟩
   · intro u p' hu
     simp only [liveL]
@@ -371,12 +373,17 @@ theorem ainv_log_mem (s : St) (t p : Nat) (nu : UInt64) (hi : AInv s) (hnu : nu 
     · obtain ⟨h1, h2⟩ := hc; subst h1; subst h2
       simp only [and_self, if_true]
       show false = live s nu p
-      simp [live, hf]
+      rw [hf]
     · have h2 : ¬ (nu = u ∧ p = p' ∧ u ≠ s.map.nul) := fun h => hc ⟨h.1, h.2.1⟩
       simp only [hc, h2, if_false]
       exact hi.bridge u p' hu
   · simp only [LogOK, liveL]
     refine ⟨by simp [hnu], fun _ => hl, hi.log_ok⟩
+
+theorem ainv_log_mem (s : St) (t p : Nat) (nu : UInt64) (hi : AInv s) (hnu : nu ≠ s.map.nul)
+    (hf : absMap s.map nu = none) :
+    AInv { s with log := .free p nu :: .create p t nu :: s.log } :=
+  ainv_log_mem' s t p nu hi hnu (by simp [live, hf])
 
 theorem newUserUnit_cases (s : St) (t p : Nat) (nu : UInt64) (mem : Bool) :
     (nu = s.map.nul ∧ newUserUnit s t p nu mem = ({ s with log := .create p t nu :: s.log }, .other)) ∨
@@ -455,13 +462,101 @@ theorem ainv_swap (s : St) (t p : Nat) (u nu : UInt64) (oldp : Nat) (mem : Bool)
         simp [hx, h1, hx2, h2]
   · simp [oldEvs, newEvs]
 
+/-- move between two different user pools that hand out the *same* handle `u` for the work unit
+(e.g. its `ABT_thread` handle): `create_unit(p)` = `u`, map (second element for `u`), unmap
+(first element for `u`), `free_unit(oldp, u)` -/
+theorem ainv_swap_same (s : St) (t p : Nat) (u : UInt64) (oldp : Nat) (mem : Bool) (m1 : UM) (hi : AInv s)
+    (hthr : s.thr t = ⟨.user u, some oldp⟩) (hp : s.isBuiltin p = false) (hne : oldp ≠ p)
+    (hm : mapThread s.map u t mem = some m1) :
+    ∃ m2, unmapThread m1 u = some m2 ∧
+      AInv { s with map := m2, log := .free oldp u :: .create p t u :: s.log,
+                    thr := updT s.thr t ⟨.user u, some p⟩ } := by
+  obtain ⟨hu0, hmu, _, _⟩ := hi.user_ok t u (by rw [hthr])
+  obtain ⟨m2, hm2, hw2, hen, hmap2, _⟩ := (remap_spec s.map u t mem hi.wf hu0 hmu).2 m1 hm
+  refine ⟨m2, hm2, ?_⟩
+  have hthr_o : ∀ t', t' ≠ t → updT s.thr t ⟨.user u, some p⟩ t' = s.thr t' := by
+    intro t' h; simp [updT, h]
+  have hlive : ∀ x p', (match absMap m2 x with
+        | some t1 => (updT s.thr t ⟨.user u, some p⟩ t1).pool == some p'
+        | none => false) = if x = u then (p == p') else live s x p' := by
+    intro x p'
+    simp only [live, hmap2]
+    by_cases hx : x = u
+    · subst hx; simp [hmu, updT]
+    · simp only [hx, if_false]
+      cases hmx : absMap s.map x with
+      | none => rfl
+      | some t1 =>
+        have : t1 ≠ t := by
+          intro h; subst h
+          have := hi.map_ok x t1 hmx
+          rw [hthr] at this; simp only [URef.user.injEq] at this; exact hx this.symm
+        simp only [hthr_o t1 this]
+  refine ⟨hw2, ?_, ?_, ?_, ?_, ?_⟩
+  · intro t1 t2 h
+    by_cases ht : t1 = t
+    · subst ht; simp [updT] at h
+    · simp only [updT, ht, if_false] at h; exact hi.bi t1 t2 h
+  · intro t1 x h
+    by_cases ht : t1 = t
+    · subst ht
+      simp only [updT, if_true, URef.user.injEq] at h ⊢; subst h
+      refine ⟨by rw [hen.2]; exact hu0, by rw [hmap2]; exact hmu, by simp, ?_⟩
+      intro p' hp'; simp only [Option.some.injEq] at hp'; subst hp'; exact hp
+    · simp only [updT, ht, if_false] at h ⊢
+      obtain ⟨a, b, c, d⟩ := hi.user_ok t1 x h
+      exact ⟨by rw [hen.2]; exact a, by rw [hmap2]; exact b, c, d⟩
+  · intro x t1 hx
+    rw [hmap2] at hx
+    have := hi.map_ok x t1 hx
+    by_cases ht : t1 = t
+    · subst ht; rw [hthr] at this; simp only [updT, if_true]; exact this
+    · simp only [updT, ht, if_false]; exact this
+  · intro x p' hx0
+    rw [hen.2] at hx0 ⊢
+    show _ = (match absMap m2 x with
+        | some t1 => (updT s.thr t ⟨.user u, some p⟩ t1).pool == some p'
+        | none => false)
+    rw [hlive]
+    simp only [liveL]
+    by_cases hx : x = u
+    · subst hx
+      have hb0 := hi.bridge x p' hx0
+      by_cases h1 : oldp = p'
+      · subst h1
+        have : ¬ p = oldp := fun h => hne h.symm
+        simp [this]
+      · by_cases h2 : p = p'
+        · subst h2; simp [h1, hx0]
+        · have h3 : ¬ (x = x ∧ p = p' ∧ x ≠ s.map.nul) := fun h => h2 h.2.1
+          simp only [h1, and_false, if_false, h3, if_true]
+          rw [hb0]; simp only [live, hmu, hthr]
+          have e1 : (oldp == p') = false := by simp [h1]
+          have e2 : (p == p') = false := by simp [h2]
+          simp [e1, e2, h2]
+    · have h1 : ¬ (u = x ∧ oldp = p') := fun h => hx h.1.symm
+      have h2 : ¬ (u = x ∧ p = p' ∧ x ≠ s.map.nul) := fun h => hx h.1.symm
+      simp only [h1, h2, if_false, hx]
+      exact hi.bridge x p' hx0
+  · show LogOK m2.nul _
+    rw [hen.2]
+    simp only [LogOK]
+    have hl1 : liveL s.map.nul s.log u oldp = true := by
+      rw [hi.bridge u oldp hu0]; simp [live, hmu, hthr]
+    have hl2 : liveL s.map.nul s.log u p = false := by
+      rw [hi.bridge u p hu0]; simp [live, hmu, hthr, hne]
+    have : ¬ (True ∧ p = oldp ∧ u ≠ s.map.nul) := fun h => hne h.2.1.symm
+    refine ⟨?_, fun _ => hl2, hi.log_ok⟩
+    simp only [liveL]
+    rw [if_neg this]; exact hl1
+
 /-- what a failed (re)association leaves behind -/
 def RolledBack (s s' : St) (t p : Nat) (nu : UInt64) : Prop :=
   s'.thr = s.thr ∧ s'.map = s.map ∧ s'.isBuiltin = s.isBuiltin ∧
   (s'.log = .create p t s.map.nul :: s.log ∨ (nu ≠ s.map.nul ∧ s'.log = .free p nu :: .create p t nu :: s.log))
 
 theorem setAssocCore_spec (s : St) (t : Nat) (unit : URef) (p : Nat) (nu : UInt64) (mem : Bool) (hi : AInv s)
-    (hu : (s.thr t).unit = unit) (hnn : unit ≠ .null) (hf : fresh s nu) :
+    (hu : (s.thr t).unit = unit) (hnn : unit ≠ .null) (hf : fresh s nu ∨ unit = .user nu) :
     ∃ s' rc, setAssocCore s t unit p nu mem = some (s', rc) ∧ AInv s' ∧
       (rc ≠ .ok → RolledBack s s' t p nu) ∧
       (rc = .ok → (s'.thr t).pool = some p ∧ (∀ t', t' ≠ t → s'.thr t' = s.thr t') ∧
@@ -492,14 +587,22 @@ theorem setAssocCore_spec (s : St) (t : Nat) (unit : URef) (p : Nat) (nu : UInt6
         refine ⟨_, .other, rfl, ainv_log_other s t0 p hi, ?_, by simp, by simp⟩
         intro _; exact ⟨rfl, rfl, rfl, Or.inl rfl⟩
       · rw [he]; simp only [reduceCtorEq, if_false]
-        have hfn : absMap s.map nu = none := by rcases hf with h | h; exact absurd h h0; exact h
+        have hfn : absMap s.map nu = none := by
+          rcases hf with (h | h) | h
+          · exact absurd h h0
+          · exact h
+          · cases h
         refine ⟨_, .mem, rfl, ainv_log_mem s t0 p nu hi h0 hfn, ?_, by simp, ?_⟩
         · intro _; exact ⟨rfl, rfl, rfl, Or.inr ⟨h0, rfl⟩⟩
         · intro hmem _
           have := (map_spec s.map nu t0 mem hi.wf h0 hfn).1 hmem
           rw [hm] at this; cases this
       · rw [he]; simp only [if_true]
-        have hfn : absMap s.map nu = none := by rcases hf with h | h; exact absurd h h0; exact h
+        have hfn : absMap s.map nu = none := by
+          rcases hf with (h | h) | h
+          · exact absurd h h0
+          · exact h
+          · cases h
         refine ⟨_, .ok, rfl, ?_, by simp, ?_, by simp⟩
         · exact ainv_new s t0 p nu mem m' hi hb h0 hfn hm (by intro u; rw [hu]; simp)
         · intro _
@@ -536,19 +639,43 @@ theorem setAssocCore_spec (s : St) (t : Nat) (unit : URef) (p : Nat) (nu : UInt6
             refine ⟨_, .other, rfl, ainv_log_other s t p hi, ?_, by simp, by simp⟩
             intro _; exact ⟨rfl, rfl, rfl, Or.inl rfl⟩
           · rw [he]; simp only [reduceCtorEq, if_false]
-            have hfn : absMap s.map nu = none := by rcases hf with h | h; exact absurd h h0; exact h
-            refine ⟨_, .mem, rfl, ainv_log_mem s t p nu hi h0 hfn, ?_, by simp, ?_⟩
-            · intro _; exact ⟨rfl, rfl, rfl, Or.inr ⟨h0, rfl⟩⟩
-            · intro hmem _
-              have := (map_spec s.map nu t mem hi.wf h0 hfn).1 hmem
-              rw [hm] at this; cases this
+            by_cases hsm : nu = u
+            · subst hsm
+              have hlv : live s nu p = false := by
+                simp only [live, hmu, hthr]; simp [hsame]
+              refine ⟨_, .mem, rfl, ainv_log_mem' s t p nu hi h0 hlv, ?_, by simp, ?_⟩
+              · intro _; exact ⟨rfl, rfl, rfl, Or.inr ⟨h0, rfl⟩⟩
+              · intro hmem _
+                have := (remap_spec s.map nu t mem hi.wf h0 hmu).1 hmem
+                rw [hm] at this; cases this
+            · have hfn : absMap s.map nu = none := by
+                rcases hf with (h | h) | h
+                · exact absurd h h0
+                · exact h
+                · simp only [URef.user.injEq] at h; exact absurd h.symm hsm
+              refine ⟨_, .mem, rfl, ainv_log_mem s t p nu hi h0 hfn, ?_, by simp, ?_⟩
+              · intro _; exact ⟨rfl, rfl, rfl, Or.inr ⟨h0, rfl⟩⟩
+              · intro hmem _
+                have := (map_spec s.map nu t mem hi.wf h0 hfn).1 hmem
+                rw [hm] at this; cases this
           · rw [he]; simp only [if_true]
-            have hfn : absMap s.map nu = none := by rcases hf with h | h; exact absurd h h0; exact h
-            obtain ⟨m'', hm2, hi'⟩ := ainv_swap s t p u nu oldp mem m' hi hthr hb h0 hfn hm
-            simp only [hm2]
-            refine ⟨_, .ok, rfl, hi', by simp, ?_, by simp⟩
-            intro _
-            refine ⟨by simp [updT], fun t' ht' => by simp [updT, ht'], fun h => (by cases h), fun _ => ⟨nu, by simp [updT]⟩⟩
+            by_cases hsm : nu = u
+            · subst hsm
+              obtain ⟨m'', hm2, hi'⟩ := ainv_swap_same s t p nu oldp mem m' hi hthr hb hsame hm
+              simp only [hm2]
+              refine ⟨_, .ok, rfl, hi', by simp, ?_, by simp⟩
+              intro _
+              refine ⟨by simp [updT], fun t' ht' => by simp [updT, ht'], fun h => (by cases h), fun _ => ⟨nu, by simp [updT]⟩⟩
+            · have hfn : absMap s.map nu = none := by
+                rcases hf with (h | h) | h
+                · exact absurd h h0
+                · exact h
+                · simp only [URef.user.injEq] at h; exact absurd h.symm hsm
+              obtain ⟨m'', hm2, hi'⟩ := ainv_swap s t p u nu oldp mem m' hi hthr hb h0 hfn hm
+              simp only [hm2]
+              refine ⟨_, .ok, rfl, hi', by simp, ?_, by simp⟩
+              intro _
+              refine ⟨by simp [updT], fun t' ht' => by simp [updT, ht'], fun h => (by cases h), fun _ => ⟨nu, by simp [updT]⟩⟩
 
 theorem initPool_spec (s : St) (t p : Nat) (nu : UInt64) (mem : Bool) (hi : AInv s)
     (hu : (s.thr t).unit = .null) (hf : fresh s nu) :
